@@ -360,6 +360,31 @@ func fold(s *Sym) *Sym {
 			return s.X.X
 		}
 	case symBin:
+		// integer arithmetic and comparisons on constants
+		if li, ok1 := s.X.ConstInt(); ok1 {
+			if ri, ok2 := s.Y.ConstInt(); ok2 {
+				switch s.Op {
+				case token.ADD:
+					return &Sym{K: symConst, C: constant.MakeInt64(li + ri)}
+				case token.SUB:
+					return &Sym{K: symConst, C: constant.MakeInt64(li - ri)}
+				case token.MUL:
+					return &Sym{K: symConst, C: constant.MakeInt64(li * ri)}
+				case token.LSS:
+					return symBool(li < ri)
+				case token.LEQ:
+					return symBool(li <= ri)
+				case token.GTR:
+					return symBool(li > ri)
+				case token.GEQ:
+					return symBool(li >= ri)
+				case token.EQL:
+					return symBool(li == ri)
+				case token.NEQ:
+					return symBool(li != ri)
+				}
+			}
+		}
 		lb, lok := s.X.ConstBool()
 		rb, rok := s.Y.ConstBool()
 		switch s.Op {
@@ -806,7 +831,13 @@ func (w *symWalker) eval1(e ast.Expr) *Sym {
 	case *ast.IndexExpr:
 		base, idx := w.eval(x.X), w.eval(x.Index)
 		if base.K == symList {
-			if i, ok := idx.ConstInt(); ok && int(i) < len(base.Parts) {
+			static := true
+			for _, part := range base.Parts {
+				if part.K == symRepeat {
+					static = false
+				}
+			}
+			if i, ok := idx.ConstInt(); ok && static && i >= 0 && int(i) < len(base.Parts) {
 				return base.Parts[i]
 			}
 		}
@@ -1840,7 +1871,8 @@ func (w *symWalker) copyIfStruct(t types.Type, val *Sym) *Sym {
 	return out
 }
 
-// FieldDeep finds a (possibly promoted) field of a struct value: directly, or inside embedded struct values.
+// FieldDeep finds a (possibly promoted) field of a struct value: directly, or inside EMBEDDED struct values (a field that
+// merely has struct type, such as Variable, is not searched: its Name is not the rule's Name).
 func (s *Sym) FieldDeep(name string) (*Sym, bool) {
 	if s == nil || s.K != symStruct {
 		return nil, false
@@ -1848,7 +1880,22 @@ func (s *Sym) FieldDeep(name string) (*Sym, bool) {
 	if f, ok := s.Fields[name]; ok {
 		return f, true
 	}
+	embedded := map[string]bool{}
+	known := false
+	if s.Type != nil {
+		if st, ok := s.Type.Underlying().(*types.Struct); ok {
+			known = true
+			for i := 0; i < st.NumFields(); i++ {
+				if st.Field(i).Embedded() {
+					embedded[st.Field(i).Name()] = true
+				}
+			}
+		}
+	}
 	for _, k := range s.Order {
+		if known && !embedded[k] {
+			continue
+		}
 		f := s.Fields[k]
 		if f.K == symStruct {
 			if v, ok := f.FieldDeep(name); ok {
